@@ -249,6 +249,14 @@ pub fn build_via(path: &str, items: &[Kv], set: bool) -> Vec<u8> {
                 if i > 0 && i % 3 == 0 {
                     let prev = &items[i - 1].0;
                     let _ = if set { b.add(prev) } else { b.insert(prev, 1) }; // out of order
+                    if i > 1 {
+                        // a much smaller key is rejected, and what lies between it and the last
+                        // accepted key is still rejected afterwards
+                        let first = &items[0].0;
+                        let _ = if set { b.add(first) } else { b.insert(first, 1) };
+                        let _ = if set { b.add(prev) } else { b.insert(prev, 1) };
+                        let _ = if set { b.add(&items[i / 2].0) } else { b.insert(&items[i / 2].0, 2) };
+                    }
                 }
                 if !k.is_empty() && i % 4 == 1 {
                     let _ = if set { b.add(&k[..k.len() - 1]) } else { b.insert(&k[..k.len() - 1], 0) }; // a prefix: smaller
@@ -396,8 +404,11 @@ pub fn c15(log: &mut Log, seed: u64, tier: &str) {
             }
         }
         // nor on how the sink takes the bytes
-        if !big {
-            for path in ["sink:3", "sink:64", "sink:random"].iter() {
+        {
+            // (large inputs too: the in-memory and the sink-backed constructors must agree once the
+            // node cache is under pressure)
+            let sink_paths: &[&str] = if big { &["sink:4096"] } else { &["sink:3", "sink:64", "sink:random"] };
+            for path in sink_paths.iter() {
                 let bytes = build_via(path, items, *set);
                 log.ev(json!({"ev": "Built", "input": name, "path": path, "thread": 0, "pid": 0, "rep": 0, "digest": fnv(&bytes)}));
             }
